@@ -252,6 +252,13 @@ func (c *Ctx) Finish() int {
 		}
 	}
 	if nUnknown > 0 {
+		var sb strings.Builder
+		for _, k := range keys {
+			if c.known(k) == nil {
+				fmt.Fprintf(&sb, "%s\t%d\t%s\n", k, c.viol[k].Count, trunc(c.viol[k].What, 300))
+			}
+		}
+		os.WriteFile(filepath.Join(ReplayDir(), c.ID+"-summary.txt"), []byte(sb.String()), 0644)
 		groups := map[string]int{}
 		for _, k := range keys {
 			if c.known(k) != nil {
